@@ -296,7 +296,7 @@ pub fn boundary_texts() -> Vec<String> {
         "1e-3", "1.5e3", "-1.5E-3", "+1", "-0", "+0", "00", "007", "08", "0o0", "0o8", "0o", "0x", "0x0", "0xg", "0X1", "0O7", "0b1", "1_000", "1__0", "_1", "1_", "0x_1", "0x1_f", "1e", "e1", "1e+", "1ee1", "1.2.3", ".", "..", "...", "-", "+", "-.", "+.", ".e1", "-.e1", "1-", "1+1", "--1", "-+1", "+-1",
         "++1", "0x+1", "0x-1", "0o+7", "0o-7", "+0x1", "-0x1", "+0o7", "-0o7", ".inf", ".Inf", ".INF", ".iNF", "+.inf", "+.Inf", "+.INF", "-.inf", "-.Inf", "-.INF", "-.iNf", ".nan", ".NaN", ".NAN", ".Nan", ".nAn", "+.nan", "-.nan", "inf", "Inf", "INF", "+inf", "-inf", "infinity", "Infinity", "INFINITY",
         "+infinity", "-Infinity", "nan", "NaN", "NAN", "+nan", "-nan", "null", "Null", "NULL", "nULL", "nul", "nulll", "~", "~~", "true", "True", "TRUE", "tRUE", "truE", "false", "False", "FALSE", "fALSE", "yes", "no", "on", "off", "y", "n", "Yes", "No", "t", "f", "T", "F", "", " ", "1 ", " 1", "1 2", "1\t",
-        "١٢٣", "１２３", "1e１", "0x１", "²", "½", "1²",
+        "000000000000000000012", "-09223372036854775808", "+0000000000000000000001", "0000000000000000000000000000001.5", "0x00000000000000000000001F", "0o000000000000000000000017", "١٢٣", "１２３", "1e１", "0x１", "²", "½", "1²",
     ] {
         v.push(s.to_string());
     }
